@@ -165,21 +165,21 @@ Proof. reflexivity. Qed.
 (* ---------------- struct providers (C12) ---------------- *)
 Lemma check_field_sound lit fields f :
   check_field lit fields = CfOk f ->
-  In f fields /\ quote (sf_name f) = lit /\ is_prevented (sf_tag f) = false.
+  In f fields /\ quote (sf_name f) = lit /\ is_prevented (sf_tag f) = false /\ is_blank f = false.
 Proof.
   induction fields as [|x r IH]; cbn [check_field]; [discriminate|].
-  destruct (String.eqb (quote (sf_name x)) lit) eqn:E.
-  - destruct (is_prevented (sf_tag x)) eqn:P; [discriminate|]. intros H; inversion H; subst. cbn.
-    apply String.eqb_eq in E. auto.
-  - intros H. destruct (IH H) as (A & B & C). cbn; auto.
+  destruct (is_blank x) eqn:B.
+  - intros H. destruct (IH H) as (A & B' & C & D). cbn; auto.
+  - destruct (String.eqb (quote (sf_name x)) lit) eqn:E.
+    + destruct (is_prevented (sf_tag x)) eqn:P; [discriminate|]. intros H; inversion H; subst. cbn.
+      apply String.eqb_eq in E. auto.
+    + intros H. destruct (IH H) as (A & B' & C & D). cbn; auto.
 Qed.
 
 Lemma star_fields_spec fields f :
-  In f (star_fields fields) <-> In f fields /\ is_prevented (sf_tag f) = false.
+  In f (star_fields fields) <-> In f fields /\ is_prevented (sf_tag f) = false /\ is_blank f = false.
 Proof.
-  unfold star_fields. rewrite filter_In. split; intros [A B]; split; auto.
-  - destruct (is_prevented (sf_tag f)); auto; discriminate.
-  - rewrite B. reflexivity.
+  unfold star_fields. rewrite filter_In, andb_true_iff, !negb_true_iff. tauto.
 Qed.
 
 Lemma select_fields_sound : forall lits fields id fs,
@@ -190,7 +190,7 @@ Proof.
   - inversion H; subst. split; auto.
   - destruct (check_field l fields) as [f| |] eqn:E; try discriminate.
     destruct (select_fields r fields id) as [fs'|e] eqn:E2; [|discriminate]. inversion H; subst.
-    destruct (IH _ _ _ E2) as [L F]. apply check_field_sound in E. destruct E as (A & _ & C).
+    destruct (IH _ _ _ E2) as [L F]. apply check_field_sound in E. destruct E as (A & _ & C & _).
     split; [cbn; congruence|]. constructor; auto.
 Qed.
 
@@ -210,7 +210,7 @@ Proof.
     intros H; inversion H; subst; cbn. repeat split; auto.
     + apply dup_check_iff; auto.
     + exists (star_fields (sp_fields s)). repeat split; auto.
-      apply Forall_forall. intros f Hf. apply star_fields_spec; auto.
+      apply Forall_forall. intros f Hf. apply star_fields_spec in Hf. tauto.
   - destruct (select_fields (sp_lits s) (sp_fields s) (sp_id s)) as [fs|e] eqn:S; [|discriminate].
     destruct (first_dup (map sf_type fs) []) eqn:D; [discriminate|].
     intros H; inversion H; subst; cbn. repeat split; auto.
